@@ -709,6 +709,7 @@ func runC19(e *Env) error {
 	}
 	parallel(e.Workers, len(sjobs), func(i int) { c19Skip(e, sjobs[i]) })
 	c19CLI(e)
+	c19Rebuild(e)
 	e.Res.Rule = fmt.Sprintf("(1) filepath.Match vs model: all patterns of length <= %d over an 11-symbol alphabet x 14 names; (2) %d random realms (<=2 schemas, <=3 tables, columns/indexes/fks/checks/views sharing names across kinds) x 1-3 patterns of 1-3 parts (wildcards, classes, escapes, [type=..] selectors with alternatives, ~4%% malformed, ~3%% with 4 parts); (3) %d (schema, edited copy) pairs per run on sqlite/mysql/postgres x skip sets (all 64 subsets of a 6-kind core, then random subsets of all %d kinds); non-trivial = pattern with a meta character / realm non-empty / skip set non-empty; distinct by the whole case", maxL, n, ns, len(all))
 	return nil
 }
